@@ -650,6 +650,23 @@ func (e *FEnc) evalCall(env *Env, x *Ex) (*Val, error) {
 		d := e.heapGet(env.st, dn, ds)
 		m := e.term(args[1])
 		return e.boolVal(fmt.Sprintf("(and (not (= %s nil_ref)) (select (select %s %s) %s))", m, d, m, e.term(args[0]))), nil
+	case "result": // result("callee", k): k-th result of the most recent call to callee on this path
+		if len(x.Args) != 2 || x.Args[0].Op != "str" || x.Args[1].Op != "int" || env.st == nil {
+			return nil, fmt.Errorf("result(\"callee name\", k)")
+		}
+		k, _ := strconv.Atoi(x.Args[1].Name)
+		for name, v := range env.st.lastRes {
+			if matchPat(x.Args[0].Name, name) {
+				if v.Tup != nil {
+					if k < len(v.Tup) {
+						return v.Tup[k], nil
+					}
+				} else if k == 0 {
+					return v, nil
+				}
+			}
+		}
+		return nil, fmt.Errorf("unknown name result(%s): no such call on the way here", x.Args[0].Name)
 	case "called": // called("pkg.Type.Method"): a call to that callee was executed on the way to this point
 		if len(x.Args) != 1 || x.Args[0].Op != "str" || env.st == nil {
 			return nil, fmt.Errorf("called(\"callee name\")")
@@ -844,14 +861,15 @@ func (e *FEnc) evalCall(env *Env, x *Ex) (*Val, error) {
 			}
 			return &Val{Ty: ty, Sort: rs, T: t}
 		}
-		if res.Len() == 1 {
-			return mk(0), nil
-		}
-		tup := &Val{Ty: res, Sort: "Tuple"}
+		var rs []*Val
 		for i := 0; i < res.Len(); i++ {
-			tup.Tup = append(tup.Tup, mk(i))
+			rs = append(rs, mk(i))
 		}
-		return tup, nil
+		e.assumePureEnsures(env, fn, args, rs)
+		if res.Len() == 1 {
+			return rs[0], nil
+		}
+		return &Val{Ty: res, Sort: "Tuple", Tup: rs}, nil
 	}
 	return nil, fmt.Errorf("unknown function %q", x.Name)
 }
@@ -961,4 +979,60 @@ func typeExName(x *Ex) string {
 		return "*" + typeExName(x.Args[0])
 	}
 	return exName(x)
+}
+
+// assumePureEnsures: a contract expression names the result of a pure function; what the function's
+// contract ensures about that result is made available as facts (once per application).
+func (e *FEnc) assumePureEnsures(env *Env, fn *ssa.Function, args []*Val, rs []*Val) {
+	if e.noFacts || env.st == nil || len(rs) == 0 {
+		return
+	}
+	fc := e.eng.contractOf(fn)
+	if fc == nil {
+		return
+	}
+	key := fn.String() + "|" + e.term(rs[0])
+	if e.pureAssumed == nil {
+		e.pureAssumed = map[string]bool{}
+	}
+	if e.pureAssumed[key] || len(e.pureAssumed) > 2000 {
+		return
+	}
+	e.pureAssumed[key] = true
+	cenv := &Env{fe: e, st: env.st, old: env.st, vars: map[string]*Val{}, bound: map[string]*Val{}}
+	if fn.Pkg != nil {
+		cenv.pkg = fn.Pkg.Pkg
+	} else if fn.Object() != nil {
+		cenv.pkg = fn.Object().Pkg()
+	}
+	sig := fn.Signature
+	var names []string
+	if len(fn.Params) == len(args) {
+		for _, p := range fn.Params {
+			names = append(names, p.Name())
+		}
+	} else {
+		if sig.Recv() != nil {
+			names = append(names, sig.Recv().Name())
+		}
+		for i := 0; i < sig.Params().Len(); i++ {
+			names = append(names, sig.Params().At(i).Name())
+		}
+	}
+	for i, n := range names {
+		if i < len(args) && n != "" && n != "_" {
+			cenv.vars[n] = args[i]
+		}
+	}
+	e.bindResults(cenv, sig, rs)
+	for _, c := range fc.Clauses {
+		if c.Kind != "ensures" {
+			continue
+		}
+		g, err := e.evalBool(cenv, c.Expr)
+		if err != nil {
+			continue
+		}
+		e.fact(g)
+	}
 }
